@@ -177,3 +177,35 @@ def check_env(sim: Sim, env: Any, n: int, comp_name: str, gap: Callable, hidden:
                 sim.fail(f"{P}.info_chosen_coalition",
                          {**ctx, "expected": explorable[last_action], "got": r_info.get("chosen_coalition")})
     sim.state(n, comp_name, tuple(sorted(revealed)))
+
+
+class OtherClientEnv:
+    """A second live environment in the same process (same n, same initially known coalitions, same computer
+    and gap function, another hidden game): a second client whose calls the scheduler interleaves with the
+    judged one's - sometimes making the very move the judged client is about to make.  Never judged itself."""
+
+    def __init__(self, sim: Sim, n: int, comp_name: str, gap: Callable, cls: str, extras: Sequence[int] = (),
+                 budget: int | None = None) -> None:
+        self.sim = sim
+        self.env = None
+        self.args = (n, comp_name, gap, cls, list(extras), budget)
+
+    def act(self, upcoming: int | None = None) -> None:
+        sim = self.sim
+        try:
+            if self.env is None:
+                n, comp_name, gap, cls, extras, budget = self.args
+                v2, _ = games.draw_game(sim, n, cls if cls in ("SA", "SAM") else "SA")
+                self.env = make_env(n, comp_name, ListSource([v2], n), gap, budget, initial_extra=extras)
+            env2 = self.env
+            valid = [int(a) for a in np.nonzero(env2.action_masks())[0]]
+            if not valid or sim.flip(1, 8, "other-env-reset"):
+                env2.reset()
+            elif upcoming is not None and upcoming in valid and sim.flip(1, 2, "other-env-lockstep"):
+                env2.step(upcoming)
+            else:
+                env2.step(sim.pick(valid, "other-env-action"))
+            sim.faults["other_live_environment_stepped"] += 1
+            sim.event("other-env")
+        except Exception as e:  # not judged
+            sim.event("other-env-raised", type(e).__name__)
